@@ -110,6 +110,10 @@ CHECKS = {
                 jobs=lambda t: J("ftoaenum", "prod-hsw", []) + (J("ftoaenum", "asan-hsw", ["--only", "D2_decimal_table_rows"]) + J("ftoaenum", "asan-hsw", ["--only", "D3b_format_switch_points"], label="asan-hsw/D3b")),
                 budget=dict(quick=100, thorough=2400),
                 rule="F64toa output per double: JSON number with fraction or exponent, <= 32 bytes, sign kept; strtod(out)==v and this library parses it back to the same bits; minimal digit count (neither (n-1)-digit grid neighbour reads back); closest among the shortest (exact big-integer comparison, ties accept either). Families: every binary exponent x boundary significand patterns, every decimal table row (d*10^k +-3ulp), all small integers, format switch points, single-precision values (thorough: all 2^32)."),
+    "C16": dict(level="model_checking", engine="allocexplore",
+                jobs=lambda t: J("allocexplore", "asan-hsw", []) + J("allocexplore", "prod-hsw", []),
+                budget=dict(quick=120, thorough=2400),
+                rule="explicit-state BFS over operation histories of the real pool allocator (8 configurations: simple/adaptive policy, tracking base, own base, user buffers of several sizes/alignments); every transition executed on the implementation and checked: 8-byte alignment, containment in one chunk, pairwise disjointness, contents intact, Realloc prefix and in-place growth, zero size -> null, Size()/Capacity() accounting, copies share one pool, chunks returned exactly once and only when the last copy dies, user buffer never freed or overrun."),
 }
 
 
@@ -156,9 +160,9 @@ def build_cmd(engine, config):
     out = os.path.join(build_dir(), "%s-%s" % (engine, config))
     src = os.path.join(VERIF, "engines", engine + ".cpp")
     extra = []
-    if os.path.exists(os.path.join(VERIF, "engines", engine + ".link")):
-        extra = open(os.path.join(VERIF, "engines", engine + ".link")).read().split()
-    return out, [cc] + COMMON + flags + [src, "-o", out + ".tmp%d" % os.getpid()] + extra
+    if os.path.exists(os.path.join(VERIF, "engines", engine + ".flags")):
+        extra = open(os.path.join(VERIF, "engines", engine + ".flags")).read().split()
+    return out, [cc] + COMMON + flags + extra + [src, "-o", out + ".tmp%d" % os.getpid()]
 
 
 def build_many(pairs):
@@ -317,7 +321,7 @@ def do_check(prop, tier):
                violation_classes={"%s|%s" % k: n for k, n in class_counts.items()},
                known_findings_matched=sorted(seen_known), build_s=round(t_build, 1))
     if spec["level"] == "model_checking":
-        st = sum(j.get("extra", {}).get("states", 0) for j in jobs)
+        st = max(j.get("extra", {}).get("states", 0) for j in jobs)
         tr = sum(j.get("extra", {}).get("transitions", 0) for j in jobs)
         cov.update(states=st, transitions=tr, traces_validated_against_impl=tr)
     ev = dict(property_id=prop, tier=tier, seed=seed, level=spec["level"], coverage=cov,
